@@ -184,7 +184,7 @@ def run_case(case):
 
     def dataset(op):
         """(X, y, must_fail) for a fit op."""
-        if op[0] == "fit":
+        if op[0] in ("fit", "fitw"):
             d = D[op[1]]
             return _layout(d["X"], lay), _layout(d.get("y"), lay), False
         d = D[0]
@@ -212,13 +212,22 @@ def run_case(case):
         Kfault = plan.calls
         if Kfault == 0:
             raise AssertionError("fault plan never consulted for %s" % cls)
+    import inspect
     ops = [("fit", 0), ("fit", 1), ("pred",)]
+    try:
+        takes_w = "sample_weight" in inspect.signature(make().fit).parameters
+    except Exception:
+        takes_w = False
+    if takes_w and arrays and kind in ("reg", "clf", "cluster"):
+        ops.append(("fitw", 0))
     if arrays:
         ops += [("bad", "inf"), ("bad", "len"), ("bad", "one"), ("bad", "dim")]
     ops += [("fault", k) for k in range(Kfault)]
     ops = [o for o in ops if not (o[0] == "bad" and dataset(o) is None)]
 
-    def do_fit(est, X, y):
+    def do_fit(est, X, y, w=None):
+        if w is not None:
+            return est.fit(X, y, sample_weight=w) if y is not None else est.fit(X, sample_weight=w)
         if kind == "ts":
             return est.fit(None, y)
         if y is None:
@@ -263,7 +272,11 @@ def run_case(case):
                 numpy.random.seed(0)
                 plan.calls, plan.fail_at = 0, None
                 opname = op[0] if op[0] != "bad" else "fit(bad:%s)" % op[1]
-                if op[0] in ("fit", "bad", "fault"):
+                if op[0] in ("fit", "fitw", "bad", "fault"):
+                    w = None
+                    if op[0] == "fitw":
+                        w = _layout(1.0 + (numpy.arange(D[0]["X"].shape[0]) % 3).astype(numpy.float64), lay)
+                    dw = _dig(w)
                     if op[0] == "fault":
                         X, y, must = _layout(D[0]["X"], lay), _layout(D[0].get("y"), lay), True
                         plan.fail_at = op[1]
@@ -272,7 +285,7 @@ def run_case(case):
                     dX, dy = _dig(X), _dig(y)
                     raised = None
                     try:
-                        r = do_fit(est, X, y)
+                        r = do_fit(est, X, y, w)
                         if r is not est:
                             bad("fit does not return the estimator", "returns %s" % type(r).__name__, hdesc)
                         fitted = True
@@ -281,6 +294,8 @@ def run_case(case):
                     plan.fail_at = None
                     if op[0] == "fault" and raised is None:
                         bad("injected inner failure swallowed by fit", "fault", "k=%d %s" % (op[1], hdesc))
+                    if _dig(w) != dw:
+                        bad("caller sample_weight modified by fit", opname, hdesc)
                     if _dig(X) != dX or _dig(y) != dy:
                         bad("caller data modified by fit", opname if op[0] != "fault" else "fit(inner failure)", hdesc)
                     try:
